@@ -187,6 +187,17 @@ class AObj(Abs):
     def __repr__(self):
         return "<%s%s>" % (self.cls.split(".")[-1], (" " + str(self.tag)) if self.tag else "")
 
+    def __hash__(self):
+        # formula nodes hash like FNode does (their id), so that the analyser's own sets and dictionaries of
+        # nodes iterate in the order CPython would give; everything else hashes by identity
+        if self.cls == "pysmt.fnode.FNode":
+            nid = self.attrs.get("_node_id")
+            if isinstance(nid, int) and not isinstance(nid, bool):
+                return nid
+        return object.__hash__(self)
+
+    __eq__ = object.__eq__
+
 
 class NTObj(AObj):
     """Instance of a namedtuple class: compares and hashes by value, field by field, like a tuple (members that are
